@@ -103,12 +103,12 @@ structure RemovedRelPost (w : World) (fl : List Nat) (g : Ent) (w' : World) : Pr
     replaced by the zero entity. -/
 theorem opRemoveEntity_rel_spec (run : ProbeRunner) {w : World} {fl : List Nat} (h : TInv w fl)
     (hl : w.isLocked = false) (hno : ∀ (evt : Nat), w.obs.hasObservers evt = false) {g : Ent}
-    (h2 : 2 ≤ g.id) (hnf : g.id ∉ fl) (ha : w.alive g = true)
+    (h2 : 2 ≤ g.id) (hnf : g.id ∉ fl) (ha : w.alive g = true) (hin : g.id < w.pool.ents.length)
     (hfew : w.tables.length + w.relationArchetypes.length + 1 ≤ maxU32)
     (hrows : 2 * w.entities.length < 2 ^ 32) :
     ∃ (w' : World), opRemoveEntity run g w = .ok () w' ∧ RemovedRelPost w fl g w' := by
   have hg0 : g.id ≠ 0 := by omega
-  obtain ⟨t, row, hix, rl⟩ := h.link.removed h2 hnf ha
+  obtain ⟨t, row, hix, rl⟩ := h.link.removed h2 hnf ha hin
   obtain ⟨fk, fa, fm⟩ := removeRowOf_fields w g t row
   obtain ⟨fra, fc⟩ := removeRowOf_more w g t row
   have hTt := get_of_lt (lt_of_get (h.link.idx.indexed rl.entry rl.tne).1)
